@@ -32,6 +32,10 @@ type C07Case struct {
 	App     *app.App `json:"app"`
 	Inputs  []BS     `json:"inputs"`
 	Backend string   `json:"backend"`
+	// Other: inputs of a second session kept in the same store, one request of it served
+	// after each request of the first (what the store holds for one session must not
+	// depend on what is saved for another afterwards)
+	Other []BS `json:"other,omitempty"`
 }
 
 var workDirSeq int
@@ -108,6 +112,18 @@ func addLangPager(t *rapid.T, a *app.App) {
 }
 
 func genC07(t *rapid.T) C07Case {
+	c := genC07Main(t)
+	if chancePct(t, 30, "bystander") {
+		for _, in := range GenHistory(t, c.App, HistOpts{MaxLen: 8, Junk: true}) {
+			if inputAccepted(in) {
+				c.Other = append(c.Other, BS(in))
+			}
+		}
+	}
+	return c
+}
+
+func genC07Main(t *rapid.T) C07Case {
 	o := fullOpts
 	o.Sloppy = chancePct(t, 20, "sloppy")
 	a := GenApp(t, o)
@@ -211,10 +227,21 @@ func checkC07(c C07Case) (o Outcome) {
 	storage, cleanup := newStorage(c.Backend)
 	defer cleanup()
 	pers := app.NewSession(app.NewShared(c.App), app.Mode{Kind: "persist", Backend: c.Backend}, storage)
+	var other *app.Session
+	if len(c.Other) > 0 {
+		other = app.NewSession(app.NewShared(c.App), app.Mode{Kind: "persist", Backend: c.Backend}, storage)
+		other.Cfg.SessionId = pers.Cfg.SessionId + "-other"
+		o.class("with-second-session-in-store")
+	}
 	var lsteps []app.Step
 	for i, in := range c.Inputs {
 		ls := long.Request([]byte(in))
 		ps := pers.Request([]byte(in))
+		if other != nil && i < len(c.Other) {
+			if os := other.Request([]byte(c.Other[i])); os.Panic != "" || os.Exceeded {
+				other = nil // its own trouble (C08); the first session goes on alone
+			}
+		}
 		lsteps = append(lsteps, ls)
 		if ls.Exceeded || ps.Exceeded {
 			o.Discard = "move-budget"
@@ -270,7 +297,7 @@ func checkC07(c C07Case) (o Outcome) {
 			break
 		}
 		// stored bytes decode into a fresh persister, re-encode, decode again to equal values
-		if v := snapshotRoundTrip(pers); v != nil {
+		if v := snapshotRoundTrip(pers, true); v != nil {
 			o.Viol = v
 			return
 		}
@@ -311,7 +338,7 @@ func checkC07(c C07Case) (o Outcome) {
 
 // snapshotRoundTrip: what the persisted session just stored loads into a fresh
 // persister, serialises again and loads again to the same values.
-func snapshotRoundTrip(s *app.Session) *Violation {
+func snapshotRoundTrip(s *app.Session, compareLive bool) *Violation {
 	ctx := context.Background()
 	store, err := s.Storage.Open(ctx)
 	if err != nil {
@@ -337,7 +364,7 @@ func snapshotRoundTrip(s *app.Session) *Violation {
 	if !reflect.DeepEqual(s1, s2) {
 		return viol("roundtrip-differs", "decode(encode(decode(stored))) differs:\n %+v\n %+v", s1, s2)
 	}
-	if cur := app.TakeSnapshot(s.St, s.Ca); cur != nil && !reflect.DeepEqual(normSnap(cur), normSnap(s1)) {
+	if cur := app.TakeSnapshot(s.St, s.Ca); compareLive && cur != nil && !reflect.DeepEqual(normSnap(cur), normSnap(s1)) {
 		return viol("stored-differs", "stored session differs from the session that was saved:\n saved : %+v\n stored: %+v", cur, s1)
 	}
 	return nil
